@@ -19,7 +19,7 @@ CHECKS = {
             'One DRBG value assignment per shape and seed; shapes above the bounds are not covered.', 'DESIGN.md 4/C01'),
     'C02': ('E1', 'bounded-exhaustive enumeration of databases x adversarially close absent keywords',
             'All partitions of N<=6 (9) per scheme/configuration point x the absent-keyword family (prefix, suffix, +byte, +NUL, bit flips, '
-            'case swap, concatenations, random, maximal length, empty, and the keywords of a second database under the same key): search must return empty and not raise.',
+            'case swap, concatenations, random, maximal length, empty, NUL-prefixed stored and random keywords, and the keywords of a second database under the same key): search must return empty and not raise. One known finding (SSE-1/SSE-2, NUL + stored keyword).',
             'Absent keywords are derived from at most 3 stored keywords per database; value-level collisions assumed negligible.', 'DESIGN.md 4/C02'),
     'C03': ('E1', 'bounded-exhaustive enumeration through three separate scheme instances joined only by wire bytes',
             'Per scheme/configuration point/partition: client, JSON-rebuilt server and JSON-rebuilt reloaded client exchange only serialized '
@@ -35,11 +35,11 @@ CHECKS = {
             'Shape = container sizes and byte-string lengths (what the property defines); N above the bound only at 2^k landmarks.', 'DESIGN.md 4/C05'),
     'C06': ('E1', 'exhaustive enumeration of keyword-order permutations; two-setup placement comparison with recording lists',
             'Label tables: all permutations (<=24) of every partition of N<=6 (8) with <=4 keywords under one key - sortedness and equality on '
-            'common labels. Arrays: all profiles with 12..24 array-resident blocks (capped in quick), two setups, slots read by Search must differ.',
+            'common labels. Arrays: all profiles with 12..24 array-resident blocks (capped in quick), two setups, slots read by Search must differ; every 4th profile (thorough: all) 10 setups, no single block at one slot in all of them.',
             'Chance coincidence <= 1/12! per array case.', 'DESIGN.md 4/C06'),
     'C07': ('E2', 'explicit-state search over search histories (BFS on canonical state + all sequences to depth k, no dedup)',
             'Per scheme x 2 configurations x 3 databases: BFS over (EDB bytes, token bytes, config fingerprint) reaches a fixpoint with one '
-            'state; all 5^k search sequences k<=4 (6) executed without dedup against answers computed by a scheme object that never searched anything else, with a second index of another database under the same key searched inside the histories; inputs (DB, cfg dict, key bytes, DEFAULT_CONFIG) compared with deep copies.',
+            'state; all 5^k search sequences k<=4 (6) executed without dedup against answers computed by a scheme object that never searched anything else, with a second index of another database under the same key searched inside the histories; inputs (DB with bytes and with bytearray identifiers, cfg dict, key bytes, DEFAULT_CONFIG) compared with deep copies.',
             'Hidden state outside EDB/token/scheme objects (e.g. module globals) would only be seen through changed answers.', 'DESIGN.md 4/C07'),
     'C08': ('E1', 'bounded-exhaustive enumeration of configuration dictionaries (single + pairwise departures, deletions, names)',
             'Every single and pairwise departure over the full value domain of every field, every primitive name, every single-field deletion, '
@@ -47,10 +47,10 @@ CHECKS = {
             'Triples only for length fields (thorough); databases valid for the configuration only.', 'DESIGN.md 4/C08'),
     'C09': ('E3', 'exhaustive enumeration of client-reload / server-restart placements on the virtual network (real client, server, websockets)',
             'All 9 schemes x 2 JSON databases x all 2^6 keep/reload placements over the workflow boundaries x 3 server-restart options; every '
-            'keyword and an absent keyword searched twice; delivered bytes, hex/int/raw/utf8 renderings compared with the JSON database; plus two interleaved services per scheme, patterned keys, all 27 cleanup-timer firings between the networked steps, an early-loaded second client object.',
+            'keyword and an absent keyword searched twice; delivered bytes, hex/int/raw/utf8 renderings compared with the JSON database; plus two interleaved services per scheme, patterned keys, all 27 cleanup-timer firings between the networked steps, an early-loaded second client object; the workflow through frontend/client/commands.py itself (JSON files, service by name, printed hex/int results) for 3 databases per scheme.',
             'One client at a time, hence no scheduling choices; in-memory transport (loopback-TCP replays: mc/loopback.py).', 'DESIGN.md 4/C09'),
     'C10': ('E2', 'explicit-state BFS to fixpoint + all histories to depth k over the real connection handler on the virtual network, 3-state reference model',
-            'Alphabet of 14 protocol events (two configs, two indexes, search, reconnect before/after the cleanup delay, foreign sid, missing sid, unknown type, three malformed messages, a configuration that cannot be stored) '
+            'Alphabet of 14 protocol events (two configs, two indexes, search, reconnect before/after the cleanup delay, five foreign sids incl. same-first-8-characters / other case / one character longer or shorter, missing sid, unknown type, three malformed messages, a configuration that cannot be stored) '
             'applied to every reachable canonical state (model + files + active Service snapshot + registry + timers); all histories of length <= 4 (5) without dedup.',
             'One connection at a time; canonical state abstracts the number of stale cleanup timers to 0/1/several.', 'DESIGN.md 4/C10'),
     'C11': ('E2', 'explicit-state BFS to fixpoint + all histories to depth k over the real client Service (fresh object per command) against a live server, 5-flag reference model',
@@ -58,7 +58,7 @@ CHECKS = {
             'length <= 5 (6); refusal leaves files byte-identical; persisted flags; key bytes write-once; searches after upload; the same through frontend/client/commands.py (10 commands, one process).',
             'PiBas (thorough: + CT14); operations before any create use a well-formed unknown sid as the CLI would.', 'DESIGN.md 4/C11'),
     'C12': ('E3', 'stateless exploration of all delivery/timer schedules (deviation-bounded for 3 connections) of the real server under scripted raw connections',
-            'Every ordered pair of 6 scripts (incl. open-and-close-while-waiting) x 3 initial durable states: ALL schedules (no cap hit in quick); 9 triples x 3 states with <= 2 (4) '
+            'Every ordered pair of 6 scripts (incl. open-and-close-while-waiting) x 3 initial durable states: ALL schedules (no cap hit in quick); the same pairs with a different request path per connection at deviation bound 2 (4); 9 triples x 3 states with <= 2 (4) '
             'deviations; oracles O1-O5 (serialisation at the instant of each server write, monotone durable state, single acknowledgement, control notice, no stuck request).',
             'Timer rule (only <= 2 s timers are schedulable), per-connection FIFO, client-bound frames eager; 3 connections only deviation-bounded.', 'DESIGN.md 4/C12'),
     'C13': ('E4', 'exhaustive crash-point enumeration (kill one component before/after every file-system mutation) on the virtual network with a crash file system',
@@ -66,11 +66,11 @@ CHECKS = {
             '(thorough: + Pi2Lev, DP17): survivor runs on, dead component restarted on the same directory, probe handshake, client reload, retry rule, rest of the workflow, final searches.',
             'Crash model of the property (no write reordering, no torn 8 KiB chunk); SIGKILL replays of the interposer: mc/loopback.py.', 'DESIGN.md 4/C13'),
     'C14': ('E1', 'exhaustive enumeration of message lengths x key sizes vs independent AES-CBC/PKCS7 computation',
-            'All message lengths 0..200 (0..300 + long) x 3 key sizes x 3 keys; declared-length variants; all wrong key lengths 0..40; constructor domain; 600 (5000) encryptions by one object with pairwise distinct IVs.',
+            'All message lengths 0..200 (0..300 + long) x 3 key sizes x 3 keys; declared-length variants; all wrong key lengths 0..40; constructor domain; 600 (5000) encryptions by one object with pairwise distinct IVs, every IV byte position varying.',
             'cryptography\'s AES is the trusted reference; keys are DRBG values.', 'DESIGN.md 4/C14'),
     'C15': ('E1', 'exhaustive enumeration of the whole domain {0,1}^n (bijection) + bounded widths',
-            'BitwiseFFX: all 2^n inputs for n=2..12 (13) under 3 keys - bijection and both inverses; all widths 12..2..12 under ONE key in one process through the PRP wrapper; wide n incl. around 160/320/2047 bits; '
-            'Luby-Rackoff: all 65536 two-byte messages, even lengths 2..64 sampled; all length contracts.',
+            'BitwiseFFX: all 2^n inputs for n=2..12 (13) under 3 keys - bijection and both inverses; 24 non-default constructions (even rounds x digests) for all inputs of n=2..8 (10); all widths 12..2..12 under ONE key in one process through the PRP wrapper; wide n incl. around 160/320/2047 bits; '
+            'Luby-Rackoff: all 65536 two-byte messages, four-byte messages injective on every one-half-exhaustive slice, even lengths 2..64 sampled; all length contracts.',
             '3 keys per width; wide widths use 20 DRBG inputs.', 'DESIGN.md 4/C15'),
     'C16': ('E1', 'bounded-exhaustive enumeration vs independent RFC 5246 P_hash and counter-mode references',
             'quick: boundary grid of key/message/output lengths per digest; thorough: the full 81x201x200 box per digest; TLS 1.2 vector anchors '
@@ -78,7 +78,7 @@ CHECKS = {
             'hashlib/hmac are the trusted base.', 'DESIGN.md 4/C16'),
     'C17': ('E1', 'bounded-exhaustive enumeration of sizes/capacities/lengths/compositions',
             'Block partition/parse round trips over (identifier size, capacity, list length, block size) grids (thorough: all 40x70 x dense '
-            'lengths), ALL compositions of lengths <=9 (12) for split, all widths 0..41 for int conversions, XOR, hex database formats.',
+            'lengths), ALL compositions of lengths <=9 (12) for split, all widths 0..41 for int conversions, XOR (random, result-structured and one-byte-exhaustive operands), hex database formats.',
             'Identifier bytes are DRBG values plus awkward members.', 'DESIGN.md 4/C17'),
     'C18': ('E1', 'bounded-exhaustive enumeration vs list-of-bits reference model',
             'Every Bitset operation named by the property is executed for every value of every length 0..8 (all operand pairs for '
